@@ -731,14 +731,79 @@ def parse_snaps(rec):
     return out
 
 
+def parse_box(b):
+    """B record fields -> (id, hexkind, roots, marks, blackens_black, blackens_grey)"""
+    i = 3
+    sets = []
+    for _ in range(3):
+        n = int(b[i])
+        sets.append([int(x) for x in b[i + 1:i + 1 + n]])
+        i += 1 + n
+    return int(b[0]), b[1], b[2], sets[0], sets[1], sets[2]
+
+
+def reduce_closures(boxes):
+    """Since 342604d a closure reaches its module and the heap is close to one strongly connected component: the observed
+    mark closures are quadratic in size (80 KB of wire per snapshot).  When the observation is the plain case - for every
+    box blacken reached exactly what mark reached and re-greyed nothing - only REACHABILITY matters to the model
+    (collect_exact), and an edge set with the same transitive closure is sent instead: boxes with equal closure-plus-self
+    (= mutually reachable) are linked in a ring, and one member points to one member of each maximal group below.
+    Returns None when the observation is not of the plain form (then the full closures are sent)."""
+    if any(sorted(m) != sorted(bb) or bg for _, _, _, m, bb, bg in boxes):
+        return None
+    clo = {i: frozenset(m) for i, _, _, m, _, _ in boxes}
+    for i, c in clo.items():
+        for t in c:
+            if t not in clo:
+                return None
+    groups = {}
+    for i in clo:
+        groups.setdefault(clo[i] | {i}, []).append(i)
+    gid = {}
+    for key, mem in groups.items():
+        for i in mem:
+            gid[i] = key
+    edges = {i: [] for i in clo}
+    for key, mem in groups.items():
+        if len(mem) > 1:
+            for a, b in zip(mem, mem[1:] + mem[:1]):
+                edges[a].append(b)
+        below = key - set(mem)
+        # groups strictly below, keep the maximal ones: not contained in the closure of another group below
+        gb = {gid[t] for t in below}
+        maximal = [g for g in gb if not any(h != g and g <= h for h in gb)]
+        for g in maximal:
+            edges[mem[0]].append(groups[g][0])
+    # self-check: the reduced edge set generates exactly the observed closures; otherwise send the full closures
+    for i in clo:
+        seen = set()
+        todo = list(edges[i])
+        while todo:
+            t = todo.pop()
+            if t not in seen:
+                seen.add(t)
+                todo.extend(edges[t])
+        seen.discard(i)
+        if seen != set(clo[i]) - {i}:
+            return None
+    return edges
+
+
 def snap_wire(s, unknown_kinds):
+    boxes = [parse_box(b) for b in s["boxes"]]
+    red = reduce_closures(boxes)
+    s["reduced"] = red is not None
     gs = []
-    for b in s["boxes"]:
-        k = kind_no(yvlib.unhx(b[1]).decode())
+    for (i, hk, roots, m, bb, bg), b in zip(boxes, s["boxes"]):
+        k = kind_no(yvlib.unhx(hk).decode())
         if k is None:
-            unknown_kinds.add(yvlib.unhx(b[1]).decode())
+            unknown_kinds.add(yvlib.unhx(hk).decode())
             k = 19
-        gs.append(" ".join([b[0], str(k)] + b[2:]))
+        if red is None:
+            gs.append(" ".join([b[0], str(k)] + b[2:]))
+        else:
+            e = [str(t) for t in red[i]]
+            gs.append(" ".join([str(i), str(k), roots, str(len(e))] + e + [str(len(e))] + e + ["0"]))
     return ";".join(gs)
 
 
